@@ -151,7 +151,18 @@ func quiet32(f float32) float32 {
 	return math.Float32frombits(b)
 }
 
+// emptyNonNil is an empty string whose data pointer is not nil (a slice of a
+// longer string): equal to "" for the language, but not for code that tests
+// the pointer word instead of the length.
+var emptyNonNil = func() string {
+	backing := string([]byte("pqsim-backing-string"))
+	return backing[6:6]
+}()
+
 func String(r *tape.Rng, p Profile) string {
+	if r.Intn(16) == 0 {
+		return emptyNonNil
+	}
 	switch p {
 	case 0:
 		return words[r.Intn(len(words))]
